@@ -11,6 +11,9 @@ ANNOTATED = [
     '{\n  "a": 1, // {min: 0} - note\n  "b": 2\n}', '1 # comment', '{} # c', '[\n1 # c\n]', '### c ###\n1', '1\n### c ###', '@t', '@a | @b', '@t // {optional: false}',
     '{\n  @k: 1\n}', '{\n  "a": @t | @u // note\n}', '"s" /* {minLength: 1}\n - note */', '[\n  1, # one\n  2 # two\n] # end', '{\n  "a": { // {allOf: "@b"}\n  }\n}',
     '1 //', '1 // {min: 0} -', '{\n  "a": 1\n}\n# tail comment', '[] // {minItems: 0} - Description ', '42 /*\n  {nullable: true}\n*/',
+    # blanks between the value and the end of its line
+    '{} #', '1 #', '{\n  "a": 1 #\n}', '1 # ',
+    '@t ', '@t\t', '@a | @b ', '@a | @b\t ', '1 ', '"a"\t', '{} ', '[1] ', 'true  ', '1 // n ', '@t // n ', '{\n  "a": @t \n}', '[\n  @a | @b \n] ',
 ]
 # first bytes of a trailer: everything but what continues the schema text on a new line (annotation / comment start)
 def trailers():
@@ -119,7 +122,7 @@ class Prop:
         if not m:
             if kind == 'trailer' and self.results.get(self.base.get(case.line), '').startswith('len='):
                 b = self.results[self.base[case.line]]
-                if re.match(r'len=\d+ total=\d+ check=ok', b):
+                if re.match(r'len=\d+ ', b):
                     return 'Len() fails once text follows the schema: ' + out[:80]
             return None
         L, total, chk, plen, pchk, past = int(m.group(1)), int(m.group(2)), m.group(3), m.group(4), m.group(5), m.group(6)
@@ -134,7 +137,7 @@ class Prop:
             return 'Len() is not idempotent: Len(prefix) = %s, Len = %d' % (plen, L)
         if kind == 'trailer':
             b = self.results.get(self.base[case.line], '')
-            mb = re.match(r'len=(\d+) total=\d+ check=ok', b)
+            mb = re.match(r'len=(\d+) ', b)
             if mb and int(mb.group(1)) != L:
                 return 'what follows the schema moves the boundary: Len = %d, with the trailer %d' % (int(mb.group(1)), L)
         return None
